@@ -22,8 +22,8 @@ number of frames the adversary could send, is spec drift (exit 2), not a violati
 
 Mutation self-test (2026-09-22): `KeyMaterialClientAuth::verify` returning Ok right after the suffix
 check (signature not verified) -> VIOLATION kind=impersonation for the sessions
-`hdr = [pk k1, sfx (mServer,k1), any sig]`; undone -> exit 0.  See also `--selftest` entries in the
-evidence (flipped expectation must be rejected).
+`hdr = [pk k1, sfx (mServer,k1), any sig]` (and wrong_identity rows for k2); undone -> exit 0.  The
+binding self-test in every run flips six expectations and requires the judge to reject them.
 """
 import json
 import os
@@ -141,10 +141,11 @@ def judge(ctx, c, o, drift):
     return 0
 
 
-def execute(ctx, cases, name):
+def execute(ctx, cases, name, seed=None):
     inp = ctx.write_ndjson(name + ".in", cases)
     outp = ctx.path(name + ".out")
-    ctx.run_bin("vh_relayauth", ["c03", "--in", inp, "--out", outp], timeout=1800)
+    ctx.run_bin("vh_relayauth", ["c03", "--in", inp, "--out", outp], timeout=1800,
+                env=None if seed is None else {"VERIF_SEED": seed})
     obs = ctx.read_ndjson(outp)
     if len(obs) != len(cases):
         raise ToolError("harness returned %d observations for %d cases" % (len(obs), len(cases)))
@@ -197,6 +198,15 @@ def run(ctx):
                                                       "sent": [f["kind"] for f in e["sent"]], "admitted": e["admitted"]},
                         "observed": {"authenticated": o["authenticated"], "pk": o["pk"], "mech": o["mech"], "serr": o["serr"],
                                      "sent": [f["kind"] for f in o["sent"]], "admitted": o["admitted"], "ac": o["ac"]}})
+    # thorough: the same sessions again with other key material (keys, exporter secrets, junk bytes)
+    if not ctx.quick:
+        for extra in (ctx.seed + 1, ctx.seed + 2, ctx.seed + 3, ctx.seed + 4):
+            for c, o in zip(cases, execute(ctx, cases, "c03-seed%d" % extra, seed=extra)):
+                ctx.count(case_key(c) + [extra], nontrivial=False)
+                judge(ctx, c, o, drift)
+                if o.get("chal"):
+                    chals[o["chal"]] = chals.get(o["chal"], 0) + 1
+        ctx.cov["seeds"] = [ctx.seed + i for i in range(5)]
     dup = [c for c, n in chals.items() if n > 1]
     if dup:
         ctx.report({"kind": "challenge_reuse"}, "the server issued the same challenge in %d sessions" % len(dup), {"challenges": dup[:5]})
